@@ -8,6 +8,7 @@ CONSTANTS
   Fmts = {"bc", "bc_idx", "idx_bc"}
   NFiles = {1}
   Lazy = {"none", "other", "this"}
+  ProbeMax = 1
   Touches = {"lookup", "getitem"}
   Variant = "design"
 INVARIANT TypeOK
